@@ -86,8 +86,8 @@ fn main() {
                     sched.refresh_timeouts(&mut cl);
                 }
                 if stab > 0 {
-                    sched.stabilize(&mut cl, &mut evs, stab);
-                    let v = json!({"ev": "StableEnd", "run": k + 1, "n": 0, "seq": 0});
+                    let probe = sched.stabilize(&mut cl, &mut evs, stab);
+                    let v = json!({"ev": "StableEnd", "run": k + 1, "n": 0, "seq": 0, "a": {"probe": probe}});
                     write_events(&mut w, &evs, k + 1);
                     writeln!(w, "{}", v).unwrap();
                 } else {
